@@ -23,6 +23,7 @@ def Ty.substS (N θ : List Ty) : Ty → Ty
   | .chan t => .chan (substS N θ t)
   | .map k v => .map (substS N θ k) (substS N θ v)
   | .named o a => .named o (substS N θ a)
+  | .con g a => .con g (substS N θ a)
   | .lnamed o a nu => .lnamed o (substS N θ a) (substS N θ nu)
   | .tnil => .tnil
   | .tcons h t => .tcons (substS N θ h) (substS N θ t)
@@ -38,6 +39,7 @@ def Ty.closed : Ty → Bool
   | .chan t => closed t
   | .map k v => closed k && closed v
   | .named _ a => closed a
+  | .con _ a => closed a
   | .lnamed _ a nu => closed a && closed nu
   | .tnil => true
   | .tcons h t => closed h && closed t
@@ -86,6 +88,61 @@ def Ty.isParam : Ty → Bool
     on the substituted type -/
 def unwrapIn (ia : Nat → Bool) (N θ : List Ty) (t : Ty) : Bool := (t.substS N θ).unwraps ia
 
+/-! ### constructor attributes are part of a type's identity -/
+
+/-- the root constructor of a type with everything that belongs to its identity besides the components -/
+inductive Root where
+  | basic (b : Nat)
+  | param
+  | slice
+  | ptr
+  | chan
+  | map
+  | named (o : Nat)
+  | lnamed (o : Nat)
+  | con (g : Nat)          -- direction / length / variadicity / field names, tags, embeddedness
+  | list
+deriving DecidableEq, Repr
+
+def Ty.root : Ty → Root
+  | .basic b => .basic b
+  | .own _ => .param
+  | .nest _ => .param
+  | .free _ => .param
+  | .slice _ => .slice
+  | .ptr _ => .ptr
+  | .chan _ => .chan
+  | .map _ _ => .map
+  | .named o _ => .named o
+  | .lnamed o _ _ => .lnamed o
+  | .con g _ => .con g
+  | .tnil => .list
+  | .tcons _ _ => .list
+
+/-- attribute codes of the channel constructors -/
+def dirBoth : Nat := 0
+def dirRecv : Nat := 1
+def dirSend : Nat := 2
+
+/-- a substitution that REBUILDS a directional channel whose element changes as a bidirectional one (what
+    `types.NewChan(types.SendRecv, elem)` in subst.go would do): not the code, the refuted alternative -/
+def Ty.substRebuild (N θ : List Ty) : Ty → Ty
+  | .basic b => .basic b
+  | .own i => (θ[i]?).getD (.own i)
+  | .nest i => (N[i]?).getD (.nest i)
+  | .free i => .free i
+  | .slice t => .slice (substRebuild N θ t)
+  | .ptr t => .ptr (substRebuild N θ t)
+  | .chan t => .chan (substRebuild N θ t)
+  | .map k v => .map (substRebuild N θ k) (substRebuild N θ v)
+  | .named o a => .named o (substRebuild N θ a)
+  | .lnamed o a nu => .lnamed o (substRebuild N θ a) (substRebuild N θ nu)
+  | .con g a =>
+    let a' := substRebuild N θ a
+    if (g = dirRecv ∨ g = dirSend) ∧ a' ≠ a then .con dirBoth a' else .con g a'
+  | .tnil => .tnil
+  | .tcons h t => .tcons (substRebuild N θ h) (substRebuild N θ t)
+
 /-! ### hypotheses under which the collector is exact -/
 
 /-- no type declared inside a generic function occurs inside a type term -/
@@ -99,6 +156,7 @@ def Ty.lfree : Ty → Bool
   | .chan t => lfree t
   | .map k v => lfree k && lfree v
   | .named _ a => lfree a
+  | .con _ a => lfree a
   | .lnamed _ _ _ => false
   | .tnil => true
   | .tcons h t => lfree h && lfree t
